@@ -132,6 +132,10 @@ pub fn custom_op(sh: &Rc<Shared>, uid: usize, kind: &CustomKind, coef: &[f64], s
     let kind_f = kind.clone();
     let coef_f: Vec<f64> = coef.to_vec();
     let fwd: ForwardOp = Rc::new(move |x: &[&Array]| {
+        if kind_f == CustomKind::Prod2Crate {
+            // a forward closure written with the library's own (tracked) arithmetic
+            return x[0] * x[1];
+        }
         let n = x[0].values().len();
         let vals: Vec<Float> = match kind_f {
             CustomKind::Lin => (0..n)
@@ -143,7 +147,7 @@ pub fn custom_op(sh: &Rc<Shared>, uid: usize, kind: &CustomKind, coef: &[f64], s
                     s
                 })
                 .collect(),
-            CustomKind::Prod2 => (0..n).map(|i| x[0].values()[i] * x[1].values()[i]).collect(),
+            CustomKind::Prod2 | CustomKind::Prod2Crate => (0..n).map(|i| x[0].values()[i] * x[1].values()[i]).collect(),
             CustomKind::NestedSq => x[0].values().iter().map(|v| v * v).collect(),
         };
         Array::from((x[0].dimensions().to_vec(), vals))
@@ -172,7 +176,7 @@ pub fn custom_op(sh: &Rc<Shared>, uid: usize, kind: &CustomKind, coef: &[f64], s
                     }
                 })
                 .collect(),
-            CustomKind::Prod2 => (0..2)
+            CustomKind::Prod2 | CustomKind::Prod2Crate => (0..2)
                 .map(|i| {
                     if tracked[i] {
                         let o = children[1 - i].values();
